@@ -130,6 +130,13 @@ def merge_into(check, res, prop_prefixes, label, build_variant="plain"):
         if not any(sig.startswith(p) for p in prop_prefixes):
             continue
         if not v.get("reproduced"):
+            if v.get("crash") and "watchdog" in sig:
+                # an execution starved of CPU for 60 s of wall-clock time on an overloaded machine and killed by the
+                # explorer's watchdog, which ran normally when repeated: not a verdict, a hole in this run's coverage
+                check.info("watchdog", "an execution was killed by the 60 s wall-clock watchdog and ran normally when repeated "
+                           "(machine overloaded); it is not counted as explored")
+                check.deadline_hit = True
+                continue
             check.broke("%s: violation %s did not reproduce deterministically on replay" % (label, sig))
             continue
         replay = dict(harness=os.path.basename(res["exe"]), params=res.get("params"),
